@@ -244,32 +244,52 @@ Definition keys_of_field (c : config) (f : string) : list string :=
                                    | SrcQv _ => false end) (snd kw)
               then [fst kw] else []) (c_wiring c).
 
-(* the slot of field f in backend be: the file and the position, when f reaches exactly one info key, that key
-   is not overridden, exactly one file of the backend loops over it, exactly once, at top level, with a flat body *)
-Definition slot_of (c : config) (be : backend) (f : string) : option (string * string * slot) :=
+(* info[key] = (values from the query) + self.<property of f>: the query expressions, in order *)
+Fixpoint split_last_prop (c : config) (f : string) (srcs : list source) : option (list string) :=
+  match srcs with
+  | [] => None
+  | [SrcProp p] => match lookup p (c_props c) with
+                   | Some f' => if String.eqb f f' then Some [] else None
+                   | None => None
+                   end
+  | SrcQv e :: r => option_map (cons e) (split_last_prop c f r)
+  | SrcProp _ :: _ => None
+  end.
+
+Definition key_shape (c : config) (f key : string) : option (list string) :=
+  match lookup key (c_wiring c) with
+  | Some srcs => split_last_prop c f srcs
+  | None => None
+  end.
+
+(* the slot of field f in backend be: file, info key, position in the template, and the query expressions whose
+   values precede the injected lines; defined when f reaches exactly one info key, that key is not overridden
+   by add_to_replacement_dict, exactly one file of the backend loops over it, exactly once, at top level,
+   with a body made of text and the loop variable *)
+Definition slot_of (c : config) (be : backend) (f : string) : option (string * string * slot * list string) :=
   match keys_of_field c f with
   | [key] =>
       if mem_str key (be_extra_keys be) then None else
-      match filter (fun ft : string * list tnode => uses key (snd ft)) (be_templates be) with
-      | [(file, t)] =>
-          match find_slot key t with
-          | Some s =>
-              if negb (uses key (sl_pre s)) && negb (uses key (sl_body s)) && negb (uses key (sl_post s))
-                 && flat_body (sl_x s) (sl_body s)
-                 && (List.length (filter (fun ft : string * list tnode => String.eqb (fst ft) file) (be_templates be)) =? 1)%nat
-              then Some (file, key, s) else None
-          | None => None
+      match key_shape c f key with
+      | None => None
+      | Some qs =>
+          match filter (fun ft : string * list tnode => uses key (snd ft)) (be_templates be) with
+          | [(file, _)] =>
+              match lookup file (be_templates be) with
+              | Some t =>
+                  match find_slot key t with
+                  | Some s =>
+                      if negb (uses key (sl_pre s)) && negb (uses key (sl_body s)) && negb (uses key (sl_post s))
+                         && flat_body (sl_x s) (sl_body s)
+                      then Some (file, key, s, qs) else None
+                  | None => None
+                  end
+              | None => None
+              end
+          | _ => None
           end
-      | _ => None
       end
   | _ => None
-  end.
-
-(* the part of info[key] that precedes the injected lines (values coming from the query) *)
-Definition q_prefix (c : config) (q : qenv) (key : string) : list string :=
-  match lookup key (c_wiring c) with
-  | Some srcs => flat_map (fun s => match s with SrcQv e => q e | SrcProp _ => [] end) srcs
-  | None => []
   end.
 
 (* ---------- substring utilities for the documented-place table (used by computation only) ---------- *)
@@ -400,7 +420,7 @@ Definition place_ok (p : place) (file : string) (s : slot) : bool :=
 (* field f has exactly one slot in the backend and it is at the documented place *)
 Definition field_placed (c : config) (be : backend) (places : list (string * place)) (f : string) : bool :=
   match lookup f places, slot_of c be f with
-  | Some p, Some (file, _, s) => place_ok p file s
+  | Some p, Some (file, _, s, _) => place_ok p file s
   | _, _ => false
   end.
 
@@ -486,8 +506,8 @@ Definition run_slots (c : config) (_ : sexp) : sexp :=
     SList [SAtom (be_name be);
            SList (map (fun f =>
              match slot_of c be f with
-             | Some (file, key, s) =>
-                 SList [SAtom f; SAtom file; SAtom key;
+             | Some (file, key, s, qs) =>
+                 SList [SAtom f; SAtom file; SAtom key; s_strs qs;
                         SAtom (match wrap_parts s with Some (a, _) => a | None => "?" end);
                         SAtom (match wrap_parts s with Some (_, b) => b | None => "?" end);
                         SAtom (static_text (sl_pre s)); SAtom (static_text (sl_post s))]
